@@ -401,6 +401,89 @@ pub proof fn lemma_frame_stable<T: BasicDataCustom>(v: Seq<BasicData<T>>, v2: Se
     }
 }
 
+/// `v2` is `v` with the value field of the input-value cell at `t` rewritten (what a write through get_current_value_mut does)
+pub open spec fn value_rewritten<T: BasicDataCustom>(v: Seq<BasicData<T>>, v2: Seq<BasicData<T>>, t: usize) -> bool {
+    t < v.len() && v2.len() == v.len() && (forall|i: int| 0 <= i < v.len() && i != t ==> v2[i] == v[i])
+      && (match v[t as int] {
+            BasicData::Value(p, _) => v2[t as int] matches BasicData::Value(p2, _) && p2 == p,
+            BasicData::ValueRoot(_) => v2[t as int] is ValueRoot,
+            _ => false })
+}
+/// the input-value cell at `t` holds `x`
+pub open spec fn top_holds<T: BasicDataCustom>(v2: Seq<BasicData<T>>, t: usize, x: usize) -> bool {
+    t < v2.len() && (match v2[t as int] { BasicData::Value(_, y) => y == x, BasicData::ValueRoot(y) => y == x, _ => false })
+}
+/// rewriting an input-value cell leaves the operand stack as it was
+pub proof fn lemma_reg_rewrite_stable<T: BasicDataCustom>(v: Seq<BasicData<T>>, v2: Seq<BasicData<T>>, t: usize, cur: Option<usize>)
+    requires reg_ok(v, cur), value_rewritten(v, v2, t)
+    ensures reg_ok(v2, cur), reg_seq(v2, cur) == reg_seq(v, cur)
+    decreases chain_rank(cur)
+{
+    match cur {
+        None => {},
+        Some(i) => {
+            assert(i != t);
+            assert(v2[i as int] == v[i as int]);
+            match v[i as int] { BasicData::Register(p, _) => { lemma_reg_rewrite_stable(v, v2, t, Some(p)); }, _ => {} }
+        }
+    }
+}
+/// ... and the part of the input-value chain below the rewritten cell
+pub proof fn lemma_val_rewrite_below<T: BasicDataCustom>(v: Seq<BasicData<T>>, v2: Seq<BasicData<T>>, t: usize, cur: Option<usize>)
+    requires val_ok(v, cur), value_rewritten(v, v2, t), cur matches Some(c) ==> c < t
+    ensures val_ok(v2, cur), val_seq(v2, cur) == val_seq(v, cur)
+    decreases chain_rank(cur)
+{
+    match cur {
+        None => {},
+        Some(i) => {
+            assert(v2[i as int] == v[i as int]);
+            match v[i as int] { BasicData::Value(p, _) => { lemma_val_rewrite_below(v, v2, t, Some(p)); }, _ => {} }
+        }
+    }
+}
+/// ... and the frame chain with the operand stacks it recorded
+pub proof fn lemma_frame_rewrite_stable<T: BasicDataCustom>(v: Seq<BasicData<T>>, v2: Seq<BasicData<T>>, t: usize, cur: Option<usize>)
+    requires frame_ok(v, cur), value_rewritten(v, v2, t)
+    ensures frame_ok(v2, cur), frame_seq(v2, cur) == frame_seq(v, cur)
+    decreases chain_rank(cur)
+{
+    match cur {
+        None => {},
+        Some(i) => {
+            assert(i != t && i - 1 != t);
+            assert(v2[i as int] == v[i as int]);
+            assert(v2[i - 1] == v[i - 1]);
+            lemma_reg_rewrite_stable(v, v2, t, frame_reg(v[i as int]));
+            match frame_prev(v[i as int]) { Some(p) => { lemma_frame_rewrite_stable(v, v2, t, Some(p)); }, None => {} }
+        }
+    }
+}
+//@@LEMMA C06
+pub proof fn lemma_write_through_top_value<T: BasicDataCustom>(v: Seq<BasicData<T>>, v2: Seq<BasicData<T>>, t: usize, regs: Option<usize>, frames: Option<usize>, newval: usize)
+    requires reg_ok(v, regs), val_ok(v, Some(t)), frame_ok(v, frames), value_rewritten(v, v2, t),
+        top_holds(v2, t, newval),
+    ensures
+        // writing through the reference replaces the top of the input-value stack (its depth stays) and moves nothing else
+        val_ok(v2, Some(t)), val_seq(v2, Some(t)) == val_seq(v, Some(t)).drop_last().push(newval),
+        reg_ok(v2, regs), reg_seq(v2, regs) == reg_seq(v, regs),
+        frame_ok(v2, frames), frame_seq(v2, frames) == frame_seq(v, frames),
+{
+    lemma_reg_rewrite_stable(v, v2, t, regs);
+    lemma_frame_rewrite_stable(v, v2, t, frames);
+    match v[t as int] {
+        BasicData::Value(p, x) => {
+            lemma_val_rewrite_below(v, v2, t, Some(p));
+            assert(val_seq(v, Some(t)) == val_seq(v, Some(p)).push(x));
+            assert(val_seq(v, Some(p)).push(x).drop_last() =~= val_seq(v, Some(p)));
+        },
+        BasicData::ValueRoot(x) => {
+            assert(seq![x].drop_last().push(newval) =~= seq![newval]);
+        },
+        _ => {},
+    }
+}
+
 /// a cell that is bookkeeping only (no Garnish value lives there)
 pub open spec fn is_bookkeeping<T: BasicDataCustom>(d: BasicData<T>) -> bool { basic_type_of(d) == GarnishDataType::Invalid }
 
